@@ -65,7 +65,7 @@ def spec_c03(h):
             if normal:
                 want = run_score(reps, cfg["direction"])
                 got = s["score"][i]
-                ok = st == "COMPLETED" and got is not None and got == got and (got == want if want in (math.inf, -math.inf) else (got not in (math.inf, -math.inf) and F(got) == want))
+                ok = st == "COMPLETED" and got is not None and got == got and (got == want if want in (math.inf, -math.inf) else (got not in (math.inf, -math.inf) and (F(got) == want or float(want) == got)))
                 if not ok:
                     return k, "retry-score", "run %d of trial %d reported %r and ended COMPLETED, but the trial is %s with score %r (that run's score is %s)" % (
                         runs_before + 1, i, reps, st, got, want)
